@@ -60,6 +60,14 @@ type Hub struct {
 	// the hub was shut down, no connections may be initiated or accepted any more
 	isShutdown bool
 
+	// pairing detail updates are numbered in the order the states were reached, so
+	// an older state is never reported to the hub reader after a newer one
+	pairingUpdateCounter   uint64
+	pairingUpdateDelivered map[string]uint64
+
+	muxPairingUpdate   sync.Mutex
+	muxPairingDelivery sync.Mutex
+
 	muxCon        sync.Mutex
 	muxConAttempt sync.Mutex
 	muxReg        sync.Mutex
@@ -78,6 +86,7 @@ func NewHub(hubReader api.HubReaderInterface,
 		connectionAttemptRunning: make(map[string]bool),
 		remoteServices:           make(map[string]*api.ServiceDetails),
 		knownMdnsEntries:         make([]*api.MdnsEntry, 0),
+		pairingUpdateDelivered:   make(map[string]uint64),
 		hubReader:                hubReader,
 		port:                     port,
 		certifciate:              certificate,
